@@ -5,8 +5,11 @@
    validity (DemeOK, implied by ValidDeme) and every time t >= 0.
    Between-ness inside an epoch whose sizes differ is arithmetic: for LINEAR epochs it is
    proved in exact rational arithmetic (the NumQ instance: C13_linear_exact_Q,
-   C13_between_linear_Q, from Proofs/SizeBetweenQ.v); for exponential epochs (exp/log) and for
-   the rounding of binary64 it is evaluated on the implementation's answers by the check. *)
+   C13_between_linear_Q, from Proofs/SizeBetweenQ.v); for exponential epochs (exp/log) — and for all three
+   size functions through size_at — it is proved in exact REAL arithmetic (the NumR instance of Base/NumR.v over the
+   standard library's Reals: C13_size_exp_exact_R, C13_size_between_exp_R, C13_size_at_between_R, ... from
+   Proofs/SizeBetweenR.v; these depend on the standard library's real-number and classical axioms, listed by
+   Print Assumptions below); the rounding of binary64 is evaluated on the implementation's answers by the check. *)
 From Coq Require Import Bool List String QArith.
 From Demes Require Import Base.Num Base.NumQ Base.Py Model.MDM Model.SizeAt Spec.Valid
   Proofs.SizeAtProofs Proofs.SizeBetweenQ.
@@ -106,6 +109,108 @@ Theorem C13_between_linear_Q (e : @epoch NumQ) (t v : qx) :
   (@nle NumQ (e_esize e) v && @nle NumQ v (e_ssize e) = true).
 Proof. exact (size_between_linear_Q e t v). Qed.
 
+(* ---- exact REAL arithmetic (the NumR instance, standard-library Reals): exponential epochs included ---- *)
+From Coq Require Import Reals.
+From Demes Require Import Base.NumR Proofs.SizeBetweenR.
+Local Open Scope R_scope.
+
+Theorem C13_ideal_exp_between ss es s en tt : 0 < ss -> 0 < es -> en <= tt < s ->
+  Rmin ss es <= ideal_exp ss es s en tt <= Rmax ss es.
+Proof. exact (ideal_exp_between ss es s en tt). Qed.
+
+Theorem C13_ideal_exp_ends ss es s en : 0 < ss -> 0 < es -> en < s ->
+  ideal_exp ss es s en en = es /\ ideal_exp ss es s en s = ss.
+Proof. exact (ideal_exp_ends ss es s en). Qed.
+
+Theorem C13_ideal_exp_monotone ss es s en t1 t2 : 0 < ss -> 0 < es -> en <= t1 -> t1 < t2 -> t2 <= s ->
+  (ss < es -> ideal_exp ss es s en t2 < ideal_exp ss es s en t1) /\
+  (es < ss -> ideal_exp ss es s en t1 < ideal_exp ss es s en t2) /\
+  (ss = es -> ideal_exp ss es s en t1 = ideal_exp ss es s en t2).
+Proof. exact (ideal_exp_monotone ss es s en t1 t2). Qed.
+
+Theorem C13_ideal_lin_between ss es s en tt : en <= tt < s ->
+  Rmin ss es <= ideal_lin ss es s en tt <= Rmax ss es.
+Proof. exact (ideal_lin_between ss es s en tt). Qed.
+
+Theorem C13_ideal_lin_ends ss es s en : en < s ->
+  ideal_lin ss es s en en = es /\ ideal_lin ss es s en s = ss.
+Proof. exact (ideal_lin_ends ss es s en). Qed.
+
+Theorem C13_size_exp_exact_R (e : @epoch NumR) (t : rx) :
+  @ValidEpoch NumR e -> e_sf e = "exponential" -> @epoch_owns NumR t e = true ->
+  exists v, @size_in_epoch NumR e t = Ok v /\
+    (v = e_esize e \/
+     exists s en ss es tt vv, rval (e_start e) = Some s /\ rval (e_end e) = Some en /\
+       rval (e_ssize e) = Some ss /\ rval (e_esize e) = Some es /\ rval t = Some tt /\
+       rval v = Some vv /\ en <= tt < s /\ 0 < ss /\ 0 < es /\ vv = ideal_exp ss es s en tt).
+Proof. exact (size_exp_exact_R e t). Qed.
+
+Theorem C13_size_exp_end_branch_R (e : @epoch NumR) (t : rx) :
+  @ValidEpoch NumR e -> e_sf e = "exponential" -> @epoch_owns NumR t e = true ->
+  @size_in_epoch NumR e t = Ok (e_esize e) ->
+  @isclose0 NumR t (e_end e) = true \/ @neqb NumR (e_ssize e) (e_esize e) = true.
+Proof. exact (size_exp_end_branch_R e t). Qed.
+
+Theorem C13_size_exp_end_value_R (e : @epoch NumR) (t v : rx) :
+  @ValidEpoch NumR e -> e_sf e = "exponential" -> @epoch_owns NumR t e = true ->
+  @size_in_epoch NumR e t = Ok v -> @neqb NumR v (e_esize e) = true ->
+  @isclose0 NumR t (e_end e) = true \/ @neqb NumR (e_ssize e) (e_esize e) = true.
+Proof. exact (size_exp_end_value_R e t v). Qed.
+
+Theorem C13_size_between_exp_R (e : @epoch NumR) (t v : rx) :
+  @ValidEpoch NumR e -> e_sf e = "exponential" -> @epoch_owns NumR t e = true ->
+  @size_in_epoch NumR e t = Ok v ->
+  (@nle NumR (e_ssize e) v && @nle NumR v (e_esize e) = true) \/
+  (@nle NumR (e_esize e) v && @nle NumR v (e_ssize e) = true).
+Proof. exact (size_between_exp_R e t v). Qed.
+
+Theorem C13_size_linear_exact_R (e : @epoch NumR) (t : rx) :
+  @ValidEpoch NumR e -> e_sf e = "linear" -> @epoch_owns NumR t e = true ->
+  exists v, @size_in_epoch NumR e t = Ok v /\
+    (v = e_esize e \/
+     exists s en ss es tt vv, rval (e_start e) = Some s /\ rval (e_end e) = Some en /\
+       rval (e_ssize e) = Some ss /\ rval (e_esize e) = Some es /\ rval t = Some tt /\
+       rval v = Some vv /\ en <= tt < s /\ 0 < ss /\ 0 < es /\ vv = ideal_lin ss es s en tt).
+Proof. exact (size_linear_exact_R e t). Qed.
+
+Theorem C13_size_between_linear_R (e : @epoch NumR) (t v : rx) :
+  @ValidEpoch NumR e -> e_sf e = "linear" -> @epoch_owns NumR t e = true ->
+  @size_in_epoch NumR e t = Ok v ->
+  (@nle NumR (e_ssize e) v && @nle NumR v (e_esize e) = true) \/
+  (@nle NumR (e_esize e) v && @nle NumR v (e_ssize e) = true).
+Proof. exact (size_between_linear_R e t v). Qed.
+
+Theorem C13_size_between_const_R (e : @epoch NumR) (t v : rx) :
+  @ValidEpoch NumR e -> e_sf e = "constant" -> @epoch_owns NumR t e = true ->
+  @size_in_epoch NumR e t = Ok v ->
+  v = e_esize e /\
+  ((@nle NumR (e_ssize e) v && @nle NumR v (e_esize e) = true) \/
+   (@nle NumR (e_esize e) v && @nle NumR v (e_ssize e) = true)).
+Proof. exact (size_between_const_R e t v). Qed.
+
+Theorem C13_size_in_epoch_between_R (e : @epoch NumR) (t v : rx) :
+  @ValidEpoch NumR e -> @epoch_owns NumR t e = true ->
+  @size_in_epoch NumR e t = Ok v ->
+  (@nle NumR (e_ssize e) v && @nle NumR v (e_esize e) = true) \/
+  (@nle NumR (e_esize e) v && @nle NumR v (e_ssize e) = true).
+Proof. exact (size_in_epoch_between_R e t v). Qed.
+
+Theorem C13_size_at_between_R (d : @deme NumR) (t v : rx) :
+  (forall e, In e (d_epochs d) -> @ValidEpoch NumR e) ->
+  @size_at NumR d t = Ok v ->
+  v = @n0 NumR
+  \/ (exists e es', d_epochs d = e :: es' /\ v = e_ssize e /\ @nisinf NumR t = true)
+  \/ (exists e, In e (d_epochs d) /\ @epoch_owns NumR t e = true /\
+        ((@nle NumR (e_ssize e) v && @nle NumR v (e_esize e) = true) \/
+         (@nle NumR (e_esize e) v && @nle NumR v (e_ssize e) = true))).
+Proof. exact (size_at_between_R d t v). Qed.
+
+Theorem C13_size_in_epoch_total_R (e : @epoch NumR) (t : rx) :
+  @ValidEpoch NumR e -> @epoch_owns NumR t e = true -> exists v, @size_in_epoch NumR e t = Ok v.
+Proof. exact (size_in_epoch_total_R e t). Qed.
+
+Local Close Scope R_scope.
+
 Print Assumptions C13_zero_before_start.
 Print Assumptions C13_zero_after_end.
 Print Assumptions C13_end_size_at_epoch_end.
@@ -118,3 +223,18 @@ Print Assumptions C13_formula_equal_sizes.
 Print Assumptions C13_between_partial.
 Print Assumptions C13_linear_exact_Q.
 Print Assumptions C13_between_linear_Q.
+Print Assumptions C13_ideal_exp_between.
+Print Assumptions C13_ideal_exp_ends.
+Print Assumptions C13_ideal_exp_monotone.
+Print Assumptions C13_ideal_lin_between.
+Print Assumptions C13_ideal_lin_ends.
+Print Assumptions C13_size_exp_exact_R.
+Print Assumptions C13_size_exp_end_branch_R.
+Print Assumptions C13_size_exp_end_value_R.
+Print Assumptions C13_size_between_exp_R.
+Print Assumptions C13_size_linear_exact_R.
+Print Assumptions C13_size_between_linear_R.
+Print Assumptions C13_size_between_const_R.
+Print Assumptions C13_size_in_epoch_between_R.
+Print Assumptions C13_size_at_between_R.
+Print Assumptions C13_size_in_epoch_total_R.
